@@ -73,10 +73,17 @@ type sqlEval struct {
 	curAlt  *SQLAlt
 	variant []string
 	errs    []string
+	// interprocedural: local closures, and parameters of inlined helpers standing for the
+	// caller's variables
+	funcs   map[types.Object]*ast.FuncLit
+	alias   map[types.Object]types.Object
+	inlined map[*ast.BlockStmt]bool // bodies being interpreted (no recursion)
+	depth   int
+	subst   map[types.Object]ast.Expr // helper parameter -> the caller's argument expression
 }
 
 func (e *sqlEval) clone() *sqlEval {
-	n := &sqlEval{pkg: e.pkg, info: e.info, strs: map[types.Object][]sqlTextItem{}, lists: map[types.Object]*SQLRep{}, args: map[types.Object][]sqlArgItem{}, choices: e.choices, variant: append([]string{}, e.variant...), errs: append([]string{}, e.errs...)}
+	n := &sqlEval{pkg: e.pkg, info: e.info, strs: map[types.Object][]sqlTextItem{}, lists: map[types.Object]*SQLRep{}, args: map[types.Object][]sqlArgItem{}, choices: e.choices, variant: append([]string{}, e.variant...), errs: append([]string{}, e.errs...), funcs: e.funcs, alias: e.alias, inlined: e.inlined, depth: e.depth}
 	for k, v := range e.strs {
 		n.strs[k] = append([]sqlTextItem{}, v...)
 	}
@@ -92,6 +99,18 @@ func (e *sqlEval) clone() *sqlEval {
 func (e *sqlEval) fail(format string, a ...any) { e.errs = append(e.errs, fmt.Sprintf(format, a...)) }
 
 func (e *sqlEval) obj(x ast.Expr) types.Object {
+	o := e.obj0(x)
+	for i := 0; i < 4 && o != nil; i++ {
+		a, ok := e.alias[o]
+		if !ok {
+			break
+		}
+		o = a
+	}
+	return o
+}
+
+func (e *sqlEval) obj0(x ast.Expr) types.Object {
 	switch v := x.(type) {
 	case *ast.Ident:
 		if o := e.info.Uses[v]; o != nil {
@@ -100,10 +119,18 @@ func (e *sqlEval) obj(x ast.Expr) types.Object {
 		return e.info.Defs[v]
 	case *ast.UnaryExpr:
 		if v.Op == token.AND {
-			return e.obj(v.X)
+			return e.obj0(v.X)
 		}
+	case *ast.StarExpr:
+		return e.obj0(v.X)
 	case *ast.ParenExpr:
-		return e.obj(v.X)
+		return e.obj0(v.X)
+	case *ast.SelectorExpr:
+		// a field of a local struct that carries the builder's state (conds.ors): keyed by
+		// the field (one instance per builder)
+		if fv, ok := e.info.Uses[v.Sel].(*types.Var); ok && fv.IsField() {
+			return fv
+		}
 	}
 	return nil
 }
@@ -351,6 +378,26 @@ func (e *sqlEval) stmts(list []ast.Stmt, onReturn func(*sqlEval, *ast.ReturnStmt
 	return envs
 }
 
+// returnsOnlyNil: every return of b has `nil` as its last result (a helper's success return).
+func returnsOnlyNil(b *ast.BlockStmt) bool {
+	ok := true
+	ast.Inspect(b, func(n ast.Node) bool {
+		if _, isLit := n.(*ast.FuncLit); isLit {
+			return false
+		}
+		if r, isRet := n.(*ast.ReturnStmt); isRet {
+			if len(r.Results) == 0 {
+				return true
+			}
+			if id, isID := r.Results[len(r.Results)-1].(*ast.Ident); !isID || id.Name != "nil" {
+				ok = false
+			}
+		}
+		return true
+	})
+	return ok
+}
+
 func hasReturn(b *ast.BlockStmt) bool {
 	found := false
 	ast.Inspect(b, func(n ast.Node) bool {
@@ -415,8 +462,14 @@ func (e *sqlEval) stmt(st ast.Stmt, onReturn func(*sqlEval, *ast.ReturnStmt)) []
 				}
 			}
 		}
-		// guards that leave the function do not contribute text
+		// guards that leave the function do not contribute text - but `if err := helper(x); err != nil`
+		// runs the helper first
 		if s.Else == nil && hasReturn(s.Body) {
+			if as, ok := s.Init.(*ast.AssignStmt); ok && len(as.Rhs) == 1 {
+				if c, ok := as.Rhs[0].(*ast.CallExpr); ok {
+					e.inline(c)
+				}
+			}
 			return []*sqlEval{e}
 		}
 		// if c { ...; return } else { rest }  /  if c { rest } else { ...; return }:
@@ -514,9 +567,72 @@ func (e *sqlEval) loop(node ast.Node, body *ast.BlockStmt, onReturn func(*sqlEva
 }
 
 func (e *sqlEval) loopTouch(body ast.Node, b, a map[types.Object]bool) {
+	e.loopTouchDepth(body, b, a, 0)
+}
+
+func (e *sqlEval) loopTouchDepth(body ast.Node, b, a map[types.Object]bool, depth int) {
 	ast.Inspect(body, func(n ast.Node) bool {
 		switch x := n.(type) {
 		case *ast.CallExpr:
+			// what a helper called in the loop touches is touched by the loop
+			if depth < 3 {
+				var hb *ast.BlockStmt
+				var params []*ast.Ident
+				var args []ast.Expr
+				switch f := x.Fun.(type) {
+				case *ast.Ident:
+					o := e.info.Uses[f]
+					if fl, ok := e.funcs[o]; ok {
+						hb = fl.Body
+						for _, fld := range fl.Type.Params.List {
+							params = append(params, fld.Names...)
+						}
+						args = x.Args
+					} else if fo, ok := o.(*types.Func); ok && fo.Pkg() == e.pkg.Types {
+						if fd := e.declOf(fo); fd != nil && fd.Body != nil {
+							hb = fd.Body
+							for _, fld := range fd.Type.Params.List {
+								params = append(params, fld.Names...)
+							}
+							args = x.Args
+						}
+					}
+				case *ast.SelectorExpr:
+					if fo, ok := e.info.Uses[f.Sel].(*types.Func); ok && fo.Pkg() == e.pkg.Types {
+						if fd := e.declOf(fo); fd != nil && fd.Body != nil && fd.Recv != nil {
+							hb = fd.Body
+							if len(fd.Recv.List) == 1 {
+								params = append(params, fd.Recv.List[0].Names...)
+								args = append(args, f.X)
+							}
+							for _, fld := range fd.Type.Params.List {
+								params = append(params, fld.Names...)
+							}
+							args = append(args, x.Args...)
+						}
+					}
+				}
+				if hb != nil {
+					// parameters stand for the arguments while looking
+					var bound []types.Object
+					for i, nm := range params {
+						if i < len(args) {
+							if po := e.info.Defs[nm]; po != nil {
+								if ao := e.obj(args[i]); ao != nil && !isStringT(po.Type()) {
+									if _, had := e.alias[po]; !had {
+										e.alias[po] = ao
+										bound = append(bound, po)
+									}
+								}
+							}
+						}
+					}
+					e.loopTouchDepth(hb, b, a, depth+1)
+					for _, po := range bound {
+						delete(e.alias, po)
+					}
+				}
+			}
 			name := e.calleeName(x)
 			if name == "Builder.WriteString" {
 				if sel, ok := x.Fun.(*ast.SelectorExpr); ok {
@@ -557,7 +673,7 @@ func (e *sqlEval) switchCases(body *ast.BlockStmt, onReturn func(*sqlEval, *ast.
 			continue
 		}
 		blk := &ast.BlockStmt{List: cc.Body}
-		if hasReturn(blk) {
+		if hasReturn(blk) && !returnsOnlyNil(blk) {
 			continue // error arm
 		}
 		alt := &SQLAlt{}
@@ -573,6 +689,27 @@ func (e *sqlEval) switchCases(body *ast.BlockStmt, onReturn func(*sqlEval, *ast.
 }
 
 func (e *sqlEval) assign(s *ast.AssignStmt) {
+	// addMatch := func(...) {...}
+	if len(s.Lhs) == 1 && len(s.Rhs) == 1 {
+		if fl, ok := s.Rhs[0].(*ast.FuncLit); ok {
+			if o := e.obj0(s.Lhs[0]); o != nil {
+				e.funcs[o] = fl
+			}
+			return
+		}
+		// err := helper(...), x = helper(...): interpret the helper for what it does to the builder
+		if c, ok := s.Rhs[0].(*ast.CallExpr); ok && e.inline(c) {
+			return
+		}
+		// conds := T{ors: make(...), args: make(...)}: nothing to track
+		if _, ok := s.Rhs[0].(*ast.CompositeLit); ok {
+			if o := e.obj0(s.Lhs[0]); o != nil {
+				if _, isStruct := o.Type().Underlying().(*types.Struct); isStruct {
+					return
+				}
+			}
+		}
+	}
 	// a, b, err := fragmentFunc(x)
 	if len(s.Rhs) == 1 && len(s.Lhs) >= 2 {
 		if c, ok := s.Rhs[0].(*ast.CallExpr); ok {
@@ -658,7 +795,110 @@ func (e *sqlEval) appendCall(o types.Object, c *ast.CallExpr) {
 	}
 }
 
+// inline interprets the body of a local closure or of a function / method of the package in
+// place, its parameters standing for the caller's variables (builder, lists) or string values.
+// Returns false when c is not such a call.
+func (e *sqlEval) inline(c *ast.CallExpr) bool {
+	var ftype *ast.FuncType
+	var body *ast.BlockStmt
+	var recv *ast.FieldList
+	var recvArg ast.Expr
+	switch f := c.Fun.(type) {
+	case *ast.Ident:
+		o := e.info.Uses[f]
+		if fl, ok := e.funcs[o]; ok {
+			ftype, body = fl.Type, fl.Body
+		} else if fo, ok := o.(*types.Func); ok && fo.Pkg() == e.pkg.Types {
+			if fd := e.declOf(fo); fd != nil {
+				ftype, body = fd.Type, fd.Body
+			}
+		}
+	case *ast.SelectorExpr:
+		if fo, ok := e.info.Uses[f.Sel].(*types.Func); ok && fo.Pkg() == e.pkg.Types {
+			if sig := fo.Type().(*types.Signature); sig.Recv() != nil {
+				if fd := e.declOf(fo); fd != nil {
+					ftype, body, recv, recvArg = fd.Type, fd.Body, fd.Recv, f.X
+				}
+			}
+		}
+	}
+	if body == nil || e.inlined[body] || e.depth >= 3 {
+		return false
+	}
+	// only helpers that touch builder state (or call such helpers): a strings.Builder write, an
+	// append to a string / []any list
+	touches := false
+	ast.Inspect(body, func(n ast.Node) bool {
+		if cc, ok := n.(*ast.CallExpr); ok {
+			switch e.calleeName(cc) {
+			case "Builder.WriteString", "fmt.Fprintf", "append":
+				touches = true
+			}
+		}
+		return true
+	})
+	if !touches {
+		return false
+	}
+	bind := func(names []*ast.Ident, arg ast.Expr) {
+		for _, nm := range names {
+			po := e.info.Defs[nm]
+			if po == nil {
+				continue
+			}
+			if isStringT(po.Type()) {
+				sub := *e
+				sub.errs = nil
+				if items := sub.evalStr(arg); len(sub.errs) == 0 {
+					e.strs[po] = items
+				}
+				continue
+			}
+			if ao := e.obj(arg); ao != nil {
+				e.alias[po] = ao
+			}
+		}
+	}
+	if recv != nil && len(recv.List) == 1 && recvArg != nil {
+		bind(recv.List[0].Names, recvArg)
+	}
+	ai := 0
+	for _, fld := range ftype.Params.List {
+		names := fld.Names
+		if len(names) == 0 {
+			ai++
+			continue
+		}
+		for _, nm := range names {
+			if ai < len(c.Args) {
+				bind([]*ast.Ident{nm}, c.Args[ai])
+			}
+			ai++
+		}
+	}
+	e.inlined[body] = true
+	e.depth++
+	e.stmts(body.List, nil)
+	e.depth--
+	delete(e.inlined, body)
+	return true
+}
+
+func (e *sqlEval) declOf(fo *types.Func) *ast.FuncDecl {
+	for _, f := range e.pkg.Syntax {
+		for _, d := range f.Decls {
+			if fd, ok := d.(*ast.FuncDecl); ok && e.info.Defs[fd.Name] == fo {
+				return fd
+			}
+		}
+	}
+	return nil
+}
+
 func (e *sqlEval) call(c *ast.CallExpr) {
+	if e.inline(c) {
+		return
+	}
 	switch e.calleeName(c) {
 	case "Builder.WriteString":
 		sel := c.Fun.(*ast.SelectorExpr)
@@ -707,6 +947,15 @@ func (e *sqlEval) argsOf(x ast.Expr) []sqlArgItem {
 			return nil
 		}
 		e.fail("argument list %s has no tracked value", v.Name)
+	case *ast.SelectorExpr:
+		if o := e.obj(v); o != nil {
+			if a, ok := e.args[o]; ok {
+				return a
+			}
+		}
+		e.fail("argument list %s has no tracked value", types.ExprString(v))
+	case *ast.ParenExpr:
+		return e.argsOf(v.X)
 	case *ast.CallExpr:
 		if e.calleeName(v) == "append" {
 			out := e.argsOf(v.Args[0])
@@ -728,7 +977,8 @@ func (e *sqlEval) argsOf(x ast.Expr) []sqlArgItem {
 
 // NewSQLEval prepares an evaluator for a package.
 func NewSQLEval(pkg *packages.Package) *sqlEval {
-	return &sqlEval{pkg: pkg, info: pkg.TypesInfo, strs: map[types.Object][]sqlTextItem{}, lists: map[types.Object]*SQLRep{}, args: map[types.Object][]sqlArgItem{}, choices: map[types.Object]*SQLChoice{}}
+	return &sqlEval{pkg: pkg, info: pkg.TypesInfo, strs: map[types.Object][]sqlTextItem{}, lists: map[types.Object]*SQLRep{}, args: map[types.Object][]sqlArgItem{}, choices: map[types.Object]*SQLChoice{},
+		funcs: map[types.Object]*ast.FuncLit{}, alias: map[types.Object]types.Object{}, inlined: map[*ast.BlockStmt]bool{}}
 }
 
 // EvalBuilder evaluates a function returning (query string, args []any, ...).
@@ -755,16 +1005,14 @@ func EvalBuilder(pkg *packages.Package, fd *ast.FuncDecl) ([]*SQLTemplate, []str
 	return out, dedupeStr(errs)
 }
 
-// EvalCallSite evaluates the (query, args...) of a RawQuery-style call found
-// inside fd: the statements of fd up to the call are interpreted first.
-func EvalCallSite(pkg *packages.Package, fd *ast.FuncDecl, call *ast.CallExpr) ([]*SQLTemplate, []string) {
-	e := NewSQLEval(pkg)
-	// interpret every statement that precedes the call (flattening blocks and loops)
+// interpretUpTo interprets the straight-line definitions of fd that precede the expression at
+// (flattening blocks and loops on the way to it).
+func (e *sqlEval) interpretUpTo(fd *ast.FuncDecl, at ast.Node) {
 	var pre []ast.Stmt
 	var collect func(list []ast.Stmt) bool
 	collect = func(list []ast.Stmt) bool {
 		for _, st := range list {
-			if st.Pos() <= call.Pos() && call.End() <= st.End() {
+			if st.Pos() <= at.Pos() && at.End() <= st.End() {
 				switch s := st.(type) {
 				case *ast.ForStmt:
 					return collect(s.Body.List)
@@ -773,7 +1021,7 @@ func EvalCallSite(pkg *packages.Package, fd *ast.FuncDecl, call *ast.CallExpr) (
 				case *ast.BlockStmt:
 					return collect(s.List)
 				case *ast.IfStmt:
-					if s.Init != nil && s.Init.Pos() <= call.Pos() && call.End() <= s.Init.End() {
+					if s.Init != nil && s.Init.Pos() <= at.Pos() && at.End() <= s.Init.End() {
 						return true
 					}
 					return collect(s.Body.List)
@@ -792,6 +1040,101 @@ func EvalCallSite(pkg *packages.Package, fd *ast.FuncDecl, call *ast.CallExpr) (
 			e.stmt(st, nil)
 		}
 	}
+}
+
+// EvalCallSite evaluates the (query, args...) of a RawQuery-style call found
+// inside fd: the statements of fd up to the call are interpreted first. When fd is a helper that
+// is handed pieces of the statement (a fragment, its arguments, the cursor) by its only caller in
+// the package, the caller is interpreted up to that call first and the helper's parameters stand
+// for the caller's values; the caller is returned as the function the statement belongs to.
+func EvalCallSite(pkg *packages.Package, fd *ast.FuncDecl, call *ast.CallExpr) ([]*SQLTemplate, []string, *ast.FuncDecl) {
+	e := NewSQLEval(pkg)
+	owner := fd
+	info := pkg.TypesInfo
+	// parameters of fd used in the statement's text or argument list
+	params := map[types.Object]int{}
+	i := 0
+	for _, fl := range fd.Type.Params.List {
+		for _, nm := range fl.Names {
+			if o := info.Defs[nm]; o != nil {
+				params[o] = i
+			}
+			i++
+		}
+		if len(fl.Names) == 0 {
+			i++
+		}
+	}
+	usesParam := false
+	for _, a := range call.Args {
+		ast.Inspect(a, func(n ast.Node) bool {
+			if id, ok := n.(*ast.Ident); ok {
+				if _, isPar := params[info.Uses[id]]; isPar {
+					if t := info.Uses[id].Type(); isStringT(t) {
+						usesParam = true
+					} else if _, isSl := t.Underlying().(*types.Slice); isSl {
+						usesParam = true
+					}
+				}
+			}
+			return true
+		})
+	}
+	if usesParam {
+		fobj := info.Defs[fd.Name]
+		var sites []*ast.CallExpr
+		var siteDecls []*ast.FuncDecl
+		for _, f := range pkg.Syntax {
+			for _, d := range f.Decls {
+				cfd, ok := d.(*ast.FuncDecl)
+				if !ok || cfd.Body == nil || cfd == fd {
+					continue
+				}
+				ast.Inspect(cfd.Body, func(n ast.Node) bool {
+					c, ok := n.(*ast.CallExpr)
+					if !ok {
+						return true
+					}
+					var id *ast.Ident
+					switch f := c.Fun.(type) {
+					case *ast.Ident:
+						id = f
+					case *ast.SelectorExpr:
+						id = f.Sel
+					}
+					if id != nil && info.Uses[id] == fobj && fobj != nil {
+						sites = append(sites, c)
+						siteDecls = append(siteDecls, cfd)
+					}
+					return true
+				})
+			}
+		}
+		if len(sites) == 1 {
+			owner = siteDecls[0]
+			e.interpretUpTo(owner, sites[0])
+			e.subst = map[types.Object]ast.Expr{}
+			for po, idx := range params {
+				if idx >= len(sites[0].Args) {
+					continue
+				}
+				arg := sites[0].Args[idx]
+				e.subst[po] = arg
+				if isStringT(po.Type()) {
+					sub := *e
+					sub.errs = nil
+					if items := sub.evalStr(arg); len(sub.errs) == 0 {
+						e.strs[po] = items
+					}
+					continue
+				}
+				if ao := e.obj(arg); ao != nil {
+					e.alias[po] = ao
+				}
+			}
+		}
+	}
+	e.interpretUpTo(fd, call)
 	t := &SQLTemplate{}
 	t.Text = e.evalStr(call.Args[0])
 	if call.Ellipsis.IsValid() && len(call.Args) == 2 {
@@ -801,7 +1144,20 @@ func EvalCallSite(pkg *packages.Package, fd *ast.FuncDecl, call *ast.CallExpr) (
 			t.Args = append(t.Args, sqlArgItem{single: a})
 		}
 	}
-	return []*SQLTemplate{t}, dedupeStr(e.errs)
+	// a helper's parameter in the argument list is the caller's expression
+	if e.subst != nil {
+		for k, it := range t.Args {
+			if it.single == nil {
+				continue
+			}
+			if id, ok := it.single.(*ast.Ident); ok {
+				if ce, ok := e.subst[info.Uses[id]]; ok {
+					t.Args[k].single = ce
+				}
+			}
+		}
+	}
+	return []*SQLTemplate{t}, dedupeStr(e.errs), owner
 }
 
 func dedupeStr(in []string) []string {
